@@ -156,6 +156,11 @@ func genDoc(r *rand.Rand, id string, size int, total int) []string {
 		if g.pick(4) == 0 {
 			g.docQueries(p, docKeys, 2)
 		}
+		if g.pick(10) == 0 {
+			// a batch put lands while a Query of this replica is reading
+			g.add("doctorn %d", p)
+			g.obsAll(peers)
+		}
 	}
 	g.finalSync(peers)
 	g.docQueries(peers[0], docKeys, 6)
